@@ -60,6 +60,11 @@ pub struct Scenario {
     /// 0 = current-thread runtime, n = multi-thread runtime with n workers
     #[serde(default)]
     pub workers: u8,
+    /// slow-consumer scenario: the provider answers with this many text deltas (two frames each, so
+    /// the stream outgrows the live channel's buffer) while one subscriber that attached before the
+    /// start does not read its response body until the stream has ended
+    #[serde(default)]
+    pub lag_deltas: Option<u32>,
 }
 
 #[derive(Clone, Debug, Serialize, Deserialize, PartialEq)]
@@ -216,7 +221,24 @@ fn tool_input(rng: &mut Rng) -> String {
 pub fn generate(run_seed: u64, _tier: Tier) -> Scenario {
     let mut rng = Rng::derive(run_seed, "c06");
     if Rng::derive(run_seed, "c06-kind").chance(1, 4) {
-        return Scenario { store: Some(generate_store(run_seed)), kind: Kind::Thread { inputs: vec![] }, with_provider: false, script: vec![], plan: Plan::default(), subs: vec![], sub_hold_ms: 0, workers: 0 };
+        return Scenario { store: Some(generate_store(run_seed)), kind: Kind::Thread { inputs: vec![] }, with_provider: false, script: vec![], plan: Plan::default(), subs: vec![], sub_hold_ms: 0, workers: 0, lag_deltas: None };
+    }
+    let mut lag = Rng::derive(run_seed, "c06-lag");
+    if lag.chance(1, 50) {
+        // 16 384 is the documented buffer of the live channels; the stream is made a little longer
+        // (now and then much longer) than that
+        let n = if lag.chance(1, 4) { lag.range(12_000, 20_000) } else { lag.range(8_200, 9_000) } as u32;
+        let mut events = vec![SseEv::Created { id: "resp_1".into() }];
+        for i in 0..n {
+            events.push(SseEv::TextDelta { text: format!("d{i} ") });
+        }
+        events.push(SseEv::Completed { id: "resp_1".into() });
+        let script = vec![Resp::Sse { events, interleave: false, done: DoneMode::Present, chunking: Chunking::Whole, drop_after: None, crlf: false }];
+        let mut subs = vec![When::BeforeStart, When::BeforeStart];
+        if lag.chance(1, 2) {
+            subs.push(When::AfterEnd);
+        }
+        return Scenario { store: None, kind: Kind::Session { input: "say a great deal".into() }, with_provider: true, script, plan: Plan::default(), subs, sub_hold_ms: 0, workers: if lag.chance(1, 3) { 3 } else { 0 }, lag_deltas: Some(n) };
     }
     let with_provider = rng.chance(2, 3);
     let input = |rng: &mut Rng| if rng.chance(2, 3) { format!("say something {}", rng.below(100)) } else { tool_input(rng) };
@@ -274,7 +296,7 @@ pub fn generate(run_seed: u64, _tier: Tier) -> Scenario {
         subs.push(When::AfterMs(rng.below(20)));
     }
     let random = if rng.chance(2, 3) { Some((rng.next_u64(), 1, rng.range(2, 6), rng.range(1, 12))) } else { None };
-    Scenario { store: None, kind, with_provider, script, plan: Plan { rules, random }, subs, sub_hold_ms: rng.below(40), workers }
+    Scenario { store: None, kind, with_provider, script, plan: Plan { rules, random }, subs, sub_hold_ms: rng.below(40), workers, lag_deltas: None }
 }
 
 // ---------------------------------------------------------------------------------------------
@@ -285,9 +307,16 @@ pub struct Sub {
     pub attached: Arc<AtomicBool>,
     pub status: Arc<AtomicU16>,
     pub handle: tokio::task::JoinHandle<()>,
+    /// a slow consumer: does not read the response body while this flag is set
+    pub stall: Option<Arc<AtomicBool>>,
 }
 
 pub fn spawn_sub(engine: &Engine, uri: &str, when: When) -> Sub {
+    spawn_sub_stalled(engine, uri, when, None)
+}
+
+pub fn spawn_sub_stalled(engine: &Engine, uri: &str, when: When, stall: Option<Arc<AtomicBool>>) -> Sub {
+    let st2 = stall.clone();
     let buf = Arc::new(Mutex::new(Vec::new()));
     let attached = Arc::new(AtomicBool::new(false));
     let status = Arc::new(AtomicU16::new(0));
@@ -305,13 +334,20 @@ pub fn spawn_sub(engine: &Engine, uri: &str, when: When) -> Sub {
         s2.store(resp.status().as_u16(), Ordering::SeqCst);
         a2.store(true, Ordering::SeqCst);
         let mut body = resp.into_body();
+        if let Some(flag) = st2 {
+            // the handler has subscribed and taken its snapshot; the body (history + live frames)
+            // is simply not polled — what a client that stopped reading its socket looks like
+            while flag.load(Ordering::SeqCst) {
+                tokio::time::sleep(Duration::from_millis(2)).await;
+            }
+        }
         while let Some(Ok(frame)) = body.frame().await {
             if let Some(d) = frame.data_ref() {
                 b2.lock().unwrap().extend_from_slice(d);
             }
         }
     });
-    Sub { when, buf, attached, status, handle }
+    Sub { when, buf, attached, status, handle, stall }
 }
 
 pub fn parse_sse_frames(bytes: &[u8]) -> Vec<Value> {
@@ -427,7 +463,8 @@ fn run_scenario(sc: &Scenario, engine: &Engine, tid: &str, stats: &mut RunStats)
         _ => ("session_stream:", "session_subscribe"),
     };
     let attach = |subs: &mut Vec<Sub>, when: When, uri: &str| {
-        let s = spawn_sub(engine, uri, when);
+        let stall = if sc.lag_deltas.is_some() && when == When::BeforeStart && subs.len() == 1 { Some(Arc::new(AtomicBool::new(true))) } else { None };
+        let s = spawn_sub_stalled(engine, uri, when, stall);
         let att = s.attached.clone();
         // a producer held inside its emitter keeps the stream's buffer locked: the subscriber then
         // completes its snapshot only after the release
@@ -573,13 +610,33 @@ fn run_scenario(sc: &Scenario, engine: &Engine, tid: &str, stats: &mut RunStats)
         attach(&mut subs, w.clone(), &uri);
     }
     // --- phase 3: let deliveries finish, then compare
+    for sub in &subs {
+        if let Some(f) = &sub.stall {
+            f.store(false, Ordering::SeqCst);
+            stats.bump("fault:subscriber_stalled_until_stream_end", 1);
+        }
+    }
     engine.settle(5);
     let truth = crate::model::parse_truth_file(&log_path).map_err(|e| format!("truth: {}", e.reason))?;
     let mut expected: Vec<(u64, String)> = truth.stream(stream_kind, &stream_id).iter().map(|f| (f.seq, f.id.clone())).collect();
     expected.sort();
     stats.bump("frames_in_watched_streams", expected.len() as u64);
     let want = expected.len();
-    drive(engine, Duration::from_secs(8), || subs.iter().all(|s| parse_sse_frames(&s.buf.lock().unwrap()).len() >= want));
+    if sc.lag_deltas.is_some() {
+        stats.bump("slow_consumer_scenarios", 1);
+        stats.bump("slow_consumer_stream_frames", want as u64);
+        // long streams: wait on the byte count settling rather than re-parsing megabytes every tick
+        let mut last = (0usize, Instant::now());
+        drive(engine, Duration::from_secs(30), || {
+            let n: usize = subs.iter().map(|s| s.buf.lock().unwrap().len()).sum();
+            if n != last.0 {
+                last = (n, Instant::now());
+            }
+            last.1.elapsed() > Duration::from_millis(400)
+        });
+    } else {
+        drive(engine, Duration::from_secs(8), || subs.iter().all(|s| parse_sse_frames(&s.buf.lock().unwrap()).len() >= want));
+    }
     stats.nontrivial = expected.len() >= 3;
     let mut verdict = None;
     for (i, s) in subs.iter().enumerate() {
@@ -615,12 +672,14 @@ fn run_scenario(sc: &Scenario, engine: &Engine, tid: &str, stats: &mut RunStats)
                 "subscriber_frames_differ"
             };
             let when = match s.when {
+                _ if s.stall.is_some() => "stalled_reader",
                 When::BeforeStart => "attached_before_start",
                 When::AtHold => "attached_at_held_point",
                 When::AfterMs(_) => "attached_during",
                 When::AfterEnd => "attached_after_end",
             };
-            verdict = Some(viol(class, format!("{class}:{kind_name}:{when}"), format!("subscriber #{i} ({:?}) of {uri} received seqs {:?}; the stream has {:?} (missing {:?}); plan {:?}", s.when, got_seqs, exp_seqs, missing, sc.plan.rules)));
+            let short = |v: &[u64]| if v.len() > 40 { format!("[{} seqs: {:?} … {:?}]", v.len(), &v[..6], &v[v.len() - 6..]) } else { format!("{v:?}") };
+            verdict = Some(viol(class, format!("{class}:{kind_name}:{when}"), format!("subscriber #{i} ({:?}) of {uri} received seqs {}; the stream has {} (missing {}); plan {:?}", s.when, short(&got_seqs), short(&exp_seqs), short(&missing), sc.plan.rules)));
         }
     }
     for s in &subs {
